@@ -488,9 +488,20 @@ def run(repo: Repo, chk: Check, thorough: bool = False) -> None:
                    'queued through _addUnprocessedModule' if queued else 'given a state of its own' if stated else
                    f'`{norm(a_)[:60]}` is registered without being queued and keeps the default state UNPROCESSED: `--prepend-package spam` with a source that says '
                    '`from spam import ham` makes getProcessedModule process it - AssertionError, the run aborts', repo.loc(f.mod, a_))
+    # ... `import pkg.b as b; b.__doc__ = "..."` writes the docstring of ANOTHER module.  `import x.y` only records an alias: the target can still be
+    # UNPROCESSED, and visit_Module later asserts that a module it starts on has no docstring yet.  The update has to process a Module target first
+    # (at run time the module has run by then: the assignment overrides its own docstring, not the contrary)
+    du = repo.func('pydoctor.astbuilder.ModuleVistor._handleDocstringUpdate')
+    cfu = CFG(du)
+    proc = [c for c in calls_in(du) if call_name(c) in ('getProcessedModule', 'processModule') and
+            any(pol and isinstance(t, ast.Call) and call_name(t) == 'isinstance' and 'Module' in norm(t.args[1]) for t, pol in cfu.dominating_tests(cfu.stmt_of(c)))]
+    chk.ob('R01.7', 'pydoctor.astbuilder.ModuleVistor._handleDocstringUpdate :: a module whose __doc__ is assigned from outside is processed first', bool(proc),
+           f'`{norm(proc[0])[:50]}` under isinstance(obj, Module)' if proc else
+           'the docstring is stored on a Module that may still be UNPROCESSED: when that module is visited later, `assert self.module.docstring is None` fails and the run '
+           'aborts (`pkg/a.py: import pkg.b as b; b.__doc__ = "..."`)', du.loc)
     if n_new < 4:
         raise AnalysisError(f'R01.7: {n_new} module creation sites found in pydoctor.model (4 confirmed)')
-    chk.require('R01.7', 6)
+    chk.require('R01.7', 7)
 
 
 def _role(f: Func, c: ast.Call) -> str:
